@@ -162,6 +162,30 @@ func (fr *Frame) callValue(st *State, fv *Val, args []*Val, pos token.Pos, sig *
 	case *ssa.Builtin:
 		return fr.callBuiltin(st, f, nil, args, pos)
 	}
+	if mx, ok := fv.X.(*mixedX); ok && !(x.effectFreeFn(mx.a) && x.effectFreeFn(mx.b)) {
+		// the function value differs between merged paths (e.g. a cleanup
+		// function chosen by a condition): run each alternative under its
+		// condition and join the results
+		_, aok := mx.a.(*Closure)
+		_, bok := mx.b.(*Closure)
+		if aok && bok && sig.Results().Len() == 0 {
+			sa := st.clone()
+			sa.pc = x.vc.def("pc", sBool, tAnd(st.pc, mx.c))
+			sb := st.clone()
+			sb.pc = x.vc.def("pc", sBool, tAnd(st.pc, tNot(mx.c)))
+			x.vc.pcNow = sa.pc
+			fr.callValue(sa, &Val{Ty: fv.Ty, L: fv.L, X: mx.a}, args, pos, sig)
+			x.vc.pcNow = sb.pc
+			fr.callValue(sb, &Val{Ty: fv.Ty, L: fv.L, X: mx.b}, args, pos, sig)
+			if m := x.mergeStates([]*State{sa, sb}); m != nil {
+				*st = *m
+			} else {
+				st.pc = "false"
+			}
+			x.vc.pcNow = st.pc
+			return nil
+		}
+	}
 	if mx, ok := fv.X.(*mixedX); ok && x.effectFreeFn(mx.a) && x.effectFreeFn(mx.b) {
 		// either a callback assumed pure or a closure that does nothing
 		x.bumpAllocTop(st)
